@@ -251,6 +251,20 @@ func ExecDispose(c DCase) *DRun {
 		}
 	}
 	one := func(i int) string { return names[i%c.N] }
+	// a tracer whose TransitionEnd can dispose: the transition then goes on (subscriptions are
+	// processed after the tracers) while the disposal has already begun
+	var disposeInTracer atomic.Bool
+	m.BindTracer(&endTracer{TracerNoOp: &am.TracerNoOp{Id: "verif-end"}, f: func(tx *am.Transition) {
+		if !tx.IsAccepted.Load() || tx.Mutation.IsCheck || !disposeInTracer.CompareAndSwap(true, false) {
+			return
+		}
+		parkAt.Store("dd:disposing")
+		m.Dispose()
+		select {
+		case <-parked:
+		case <-time.After(time.Second):
+		}
+	}})
 	// workload before
 	for _, o := range c.Pre {
 		var args am.A
@@ -297,6 +311,13 @@ func ExecDispose(c DCase) *DRun {
 			subs = append(subs, sub{kind: sreq, ch: m.WhenTime1(st, m.Tick(st)+6, nil)})
 		case "whenticks":
 			subs = append(subs, sub{kind: sreq, ch: m.WhenTicks(st, 5, nil)})
+		case "whentick1":
+			subs = append(subs, sub{kind: sreq, ch: m.WhenTicks(st, 1, nil)})
+		case "whenquery1":
+			base := m.Tick(st)
+			subs = append(subs, sub{kind: sreq, ch: m.WhenQuery(func(cl am.Clock) bool { return cl[st] > base }, nil)})
+		case "whentime1":
+			subs = append(subs, sub{kind: sreq, ch: m.WhenTime1(st, m.Tick(st)+1, nil)})
 		case "whenargs":
 			subs = append(subs, sub{kind: sreq, ch: m.WhenArgs(st, am.A{"never": 1}, nil)})
 		case "whenqueue":
@@ -402,6 +423,107 @@ func ExecDispose(c DCase) *DRun {
 		case <-time.After(time.Second):
 			// the point was not reached (nothing to park on): plain dispose
 			m.Dispose()
+		}
+	case "in-tracer-end":
+		// Dispose lands after the handlers of a transition and before its subscriptions are processed:
+		// the subscriptions matched by exactly that transition must still be released
+		if m.IsDisposed() {
+			break
+		}
+		disposeInTracer.Store(true)
+		if r := guarded(wait, func() { m.Add(am.S{one(1), one(2)}, am.A{"x": 1}) }); r != "" {
+			fail("Add during whose TransitionEnd tracer callback Dispose landed: %s", r)
+		}
+		time.Sleep(20 * time.Millisecond)
+		if parkedOnce.Load() {
+			close(release)
+		}
+	case "eval-pending":
+		// an Eval is waiting behind a busy handler when Dispose lands; the parent context stays alive.
+		// The Eval caller is a waiter like any other: it returns (false), it does not hang and it does
+		// not panic, whatever its timeout is relative to the stages of the disposal
+		evalMs := 400
+		fmt.Sscan(c.Stage, &evalMs)
+		m.EvalTimeout = time.Duration(evalMs) * time.Millisecond
+		busy := make(chan struct{})
+		var busyOnce sync.Once
+		unbusy := func() { busyOnce.Do(func() { close(busy) }) }
+		defer unbusy()
+		entered := make(chan struct{}, 1)
+		if _, err := m.HandlersBindMaps(nil, map[string]am.HandlerFinal{one(1) + "State": func(e *am.Event) {
+			select {
+			case entered <- struct{}{}:
+			default:
+			}
+			<-busy
+		}}, am.BindOpts{Id: "busy"}); err != nil {
+			fail("bind: %v", err)
+			return run
+		}
+		if m.Is1(one(1)) {
+			m.Remove1(one(1), nil)
+		}
+		go m.Add1(one(1), nil)
+		select {
+		case <-entered:
+		case <-time.After(time.Second):
+			fail("eval-pending: the busy handler never started")
+			return run
+		}
+		callerDone = make(chan struct{})
+		var evalRet atomic.Int32 // 0 pending, 1 false, 2 true, 3 panicked
+		var evalPanic atomic.Value
+		var fnRan atomic.Bool
+		evalStart := time.Now()
+		var evalTook atomic.Int64
+		go func() {
+			defer close(callerDone)
+			defer func() {
+				if r := recover(); r != nil {
+					evalPanic.Store(fmt.Sprint(r))
+					evalRet.Store(3)
+				}
+				evalTook.Store(int64(time.Since(evalStart)))
+			}()
+			if m.Eval("verif-pending", func() { fnRan.Store(true) }, nil) {
+				evalRet.Store(2)
+			} else {
+				evalRet.Store(1)
+			}
+		}()
+		time.Sleep(15 * time.Millisecond)
+		m.Dispose()
+		// the handler stays busy beyond the graceful wait of the disposal
+		go func() {
+			time.Sleep(time.Duration(20+min(evalMs/2, 250)) * time.Millisecond)
+			unbusy()
+		}()
+		// once the disposal has completed the pending Eval is released with it, not by its own timeout
+		select {
+		case <-m.WhenDisposed():
+			select {
+			case <-callerDone:
+			case <-time.After(300 * time.Millisecond):
+				fail("an Eval that was pending when Dispose landed is still blocked 300ms after the disposal completed (eval timeout %dms): disposal did not release it", evalMs)
+			}
+		case <-time.After(wait):
+		}
+		select {
+		case <-callerDone:
+		case <-time.After(wait):
+		}
+		switch evalRet.Load() {
+		case 0:
+			fail("an Eval that was pending when Dispose landed never returned (eval timeout %dms, handler busy)", evalMs)
+		case 3:
+			fail("an Eval that was pending when Dispose landed panicked in its caller: %v (eval timeout %dms)", evalPanic.Load(), evalMs)
+		case 2:
+			if !fnRan.Load() {
+				fail("an Eval pending across Dispose reported success although its function never ran")
+			}
+		}
+		if d := time.Duration(evalTook.Load()); evalRet.Load() == 1 && d > time.Duration(evalMs)*time.Millisecond+400*time.Millisecond {
+			fail("an Eval that was pending when Dispose landed returned only after %v (eval timeout %dms)", d, evalMs)
 		}
 	case "mid-dispose":
 		// the disposer is parked at a stage of doDispose; other callers use the machine
@@ -539,6 +661,13 @@ var subKinds = []string{"when", "whennot", "whentime", "whenticks", "whenargs", 
 var queueStages = []string{"pq:casOk", "pq:shifted", "pq:loopExit", "pq:released", "qm:appended", "pq:preOk"}
 var disposeStages = []string{"dd:disposing", "dd:disposed", "dd:subsDisposed", "dd:beforeCancel"}
 
+type endTracer struct {
+	*am.TracerNoOp
+	f func(tx *am.Transition)
+}
+
+func (t *endTracer) TransitionEnd(tx *am.Transition) { t.f(tx) }
+
 func GenDCase(r *rand.Rand, trigger string) DCase {
 	c := DCase{N: 3 + r.Intn(3), Handlers: r.Intn(2) == 0, Trigger: trigger, Tag: trigger}
 	for k := 0; k < r.Intn(4); k++ {
@@ -557,12 +686,21 @@ func GenDCase(r *rand.Rand, trigger string) DCase {
 		c.Stage = queueStages[r.Intn(len(queueStages))]
 	case "mid-dispose":
 		c.Stage = disposeStages[r.Intn(len(disposeStages))]
+	case "in-tracer-end":
+		// subscriptions which the triggering Add(S1, S2) satisfies, next to ones it does not
+		c.Pre = append(c.Pre, Op{Kind: "remove", States: []int{1, 2}})
+		for k := 0; k < 2+r.Intn(3); k++ {
+			c.Subs = append(c.Subs, fmt.Sprintf("%s:%d", []string{"when", "whentick1", "whenquery1", "whentime1"}[r.Intn(4)], 1+r.Intn(2)))
+		}
+	case "eval-pending":
+		c.Handlers = r.Intn(2) == 0
+		c.Stage = fmt.Sprint([]int{60, 120, 180, 220, 260, 300, 340, 400, 500, 700, 1500, 3000}[r.Intn(12)])
 	}
 	return c
 }
 
 var Triggers = []string{"idle-dispose", "idle-force", "idle-parent", "twice", "twice-after", "twice-conc", "dispose+force",
-	"parent+dispose", "in-neg", "in-final", "in-eval", "during-queue", "mid-dispose"}
+	"parent+dispose", "in-neg", "in-final", "in-eval", "during-queue", "mid-dispose", "in-tracer-end", "eval-pending"}
 
 // RunDispose: the disposal schedule engine; corpus first, the fixed cases, then
 // every trigger `per` times.
